@@ -59,9 +59,9 @@ def case_key(case: Any) -> int:
 
 
 def guarded(fn: Callable[[Any], Optional[tuple]], case: Any) -> Optional[tuple]:
-    """Run a check function; an exception whose innermost frame lies in the repository under test is a
-    violation of the property being exercised (the library blew up on a legal use), anything else is a
-    harness error and propagates."""
+    """Run a check function; an exception that was raised in, or below, code of the repository under test is a
+    violation of the property being exercised (the library blew up on a legal use); an exception that never
+    entered the repository is a harness error and propagates."""
     try:
         return fn(case)
     except _Violation:
@@ -69,16 +69,16 @@ def guarded(fn: Callable[[Any], Optional[tuple]], case: Any) -> Optional[tuple]:
     except Exception as e:
         from . import harness
         tb = e.__traceback__
-        inner = None
+        repo = os.path.realpath(harness.REPO) + os.sep
+        inner_repo = None
         while tb is not None:
-            inner = tb
+            if os.path.realpath(tb.tb_frame.f_code.co_filename).startswith(repo):
+                inner_repo = tb          # deepest frame that belongs to the repository under test
             tb = tb.tb_next
-        fname = inner.tb_frame.f_code.co_filename if inner else ""
-        repo = os.path.realpath(harness.REPO)
-        if os.path.realpath(fname).startswith(repo + os.sep):
-            func = inner.tb_frame.f_code.co_name
-            return (f"crash/{type(e).__name__}@{os.path.basename(fname)}:{func}",
-                    f"unexpected {type(e).__name__} from the library: {e!r}")
+        if inner_repo is not None:
+            code = inner_repo.tb_frame.f_code
+            return (f"crash/{type(e).__name__}@{os.path.basename(code.co_filename)}:{code.co_name}",
+                    f"unexpected {type(e).__name__} from (or below) the library: {e!r}")
         raise
 
 
